@@ -122,6 +122,17 @@ def gen_cases(ctx):
                 w["tests"][w["tests"].index(t)] = nt
             o["processes"] = 1
             o["shuffle_seed"] = None
+            if i % 8 == 0:
+                # the child re-parses the parent's own arguments: -x right after an option written --name=value,
+                # in a layer (>= 2 tests, the first bad) that runs in a child
+                o["shuffle_seed"] = rng.randint(0, 10 ** 6)
+                o["seed_eq_then_x"] = True
+                extra_ids = max([x["id"] for x in w["tests"]] + [0]) + 1
+                for k2 in range(2):
+                    t2 = worlds.gen_test(rng, extra_ids + k2, [2000], kind=rng.choice(["pass", "fail"]), p_write=0.0)
+                    t2["layer"], t2["module"] = order[1], next(iter(w["modules"]))
+                    w["tests"].append(t2)
+                    w["modules"][t2["module"]]["suites"].append({"t": "leaf", "id": t2["id"], "lyr": order[1]})
             cases.append(cw.Case(w, o, "directed-resume"))
             continue
         if rng.random() < 0.15:
